@@ -441,6 +441,13 @@ func mkLen(x *Val) *Val {
 		}
 	case "arraylit":
 		return mkInt(int64(len(x.Args)))
+	case "alloc":
+		// pointer to a fixed-size array (the base of arr[:])
+		if p, ok := x.Type.(*types.Pointer); ok {
+			if arr, ok := p.Elem().Underlying().(*types.Array); ok {
+				return mkInt(arr.Len())
+			}
+		}
 	case "wire":
 		if len(x.Args) == 1 && x.Args[0] != nil { // bytes delivered by a successful read: exactly the requested length
 			return x.Args[0]
